@@ -7,7 +7,7 @@ import storefam
 import vlib
 
 PID = "C06"
-FILES = ["theories/Properties/C06.v", "theories/Examples/C06Examples.v"]
+FILES = ["theories/Properties/C06.v", "theories/Examples/C06Wirings.v", "theories/Examples/C06Examples.v"]
 
 
 # ------------------------------------------------------------------ case tokens -> operations
